@@ -28,6 +28,9 @@ type kase struct {
 	Data      []byte `json:"data"`
 	MustError bool   `json:"must_error,omitempty"`
 	Why       string `json:"why,omitempty"`
+	// Groups: Data is a FASTQ file of four-line groups "@g<i>", letters, "+" or "+g<i>", qualities; reading
+	// continues past errors and every record that comes back must be its own group, never a mismatched one.
+	Groups bool `json:"groups,omitempty"`
 }
 
 var formats = []string{"fasta", "fastq", "bed3", "bed4", "bed5", "bed6", "bed12", "gff"}
@@ -86,9 +89,65 @@ func readAll(k kase) (calls int, records int, err error, bad string) {
 	}
 }
 
+// checkGroups: no record of a FASTQ file of four-line groups is ever returned with letters or qualities
+// other than its own, and a group whose lengths differ is never returned at all - also after an earlier
+// call on the same reader has failed.
+func checkGroups(c *enum.Ctx, k kase) {
+	lines := strings.Split(strings.TrimSuffix(string(k.Data), "\n"), "\n")
+	type group struct{ letters, quals string }
+	groups := map[string]group{}
+	for i := 0; i+3 < len(lines); i += 4 {
+		groups[strings.TrimPrefix(lines[i], "@")] = group{lines[i+1], lines[i+3]}
+	}
+	c.Guard("fastq/panic", k, func() {
+		r := fastq.NewReader(bytes.NewReader(k.Data), linear.NewQSeq("", nil, alphabet.DNA, alphabet.Sanger))
+		failed := false
+		for calls := 0; calls <= len(lines)+2; calls++ {
+			s, err := r.Read()
+			if err == io.EOF {
+				return
+			}
+			if err != nil {
+				failed = true
+				continue
+			}
+			if isNil(s) {
+				c.Fail("fastq/contract", k, "a call returned neither a record nor an error (input %q)", k.Data)
+				return
+			}
+			q := s.(*linear.QSeq)
+			g, ok := groups[q.Name()]
+			when := ""
+			if failed {
+				when = " after an earlier call had failed"
+			}
+			var got, gq []byte
+			for _, ql := range q.Seq {
+				got = append(got, byte(ql.L))
+				gq = append(gq, ql.Q.Encode(alphabet.Sanger))
+			}
+			switch {
+			case !ok:
+				c.Fail("fastq/groups/unknown-record", k, "record %q returned%s, no such group in %q", q.Name(), when, k.Data)
+			case len(g.letters) != len(g.quals):
+				c.Fail("fastq/invalid-accepted/sequence-quality length mismatch", k, "group %q has %d letters and %d qualities but was returned%s as a record with letters %q (input %q)", q.Name(), len(g.letters), len(g.quals), when, got, k.Data)
+			case string(got) != g.letters || string(gq) != g.quals:
+				c.Fail("fastq/groups/wrong-content", k, "group %q returned%s with letters %q qualities %q, the file says %q %q (input %q)", q.Name(), when, got, gq, g.letters, g.quals, k.Data)
+			default:
+				continue
+			}
+			return
+		}
+	})
+}
+
 var current [16]atomic.Value // per worker: the case being evaluated (for the hang watchdog)
 
 func check(c *enum.Ctx, k kase) {
+	if k.Groups {
+		checkGroups(c, k)
+		return
+	}
 	var calls int
 	var err error
 	var bad string
@@ -127,6 +186,12 @@ func bedTokens(n int) []token {
 		{with(1, "x"), "non-numeric start"},
 		{with(2, "99999999999999999999"), "coordinate overflow"},
 		{with(2, ""), "empty end"},
+		{with(1, ""), "empty start"},
+		{with(1, " "), "blank start"},
+		{with(2, " "), "blank end"},
+		{with(2, "1e3"), "non-integer end"},
+		{with(1, "+"), "sign-only start"},
+		{with(2, "-"), "sign-only end"},
 		{"", "blank line"},
 		{"\t\t", "empty columns"},
 		{with(1, "-5"), ""},
@@ -157,6 +222,14 @@ var gffTokens = []token{
 	{"seq\tsrc\tfeat\t1\t5\t.\t+\tx", "bad frame"},
 	{"seq\tsrc\tfeat\t1\tx\t.\t+\t.", "non-numeric end"},
 	{"seq\tsrc\tfeat\t\t5\t.\t+\t.", "empty start"},
+	{"seq\tsrc\tfeat\t1\t\t.\t+\t.", "empty end"},
+	{"seq\tsrc\tfeat\t1\t \t.\t+\t.", "blank end"},
+	{"seq\tsrc\tfeat\t1\t1e3\t.\t+\t.", "non-integer end"},
+	{"seq\tsrc\tfeat\t+\t5\t.\t+\t.", "sign-only start"},
+	{"seq\tsrc\tfeat\t1\t-\t.\t+\t.", "sign-only end"},
+	{"##sequence-region chr1 1  5", "empty region end"},
+	{"##sequence-region chr1 x 5", "non-numeric region start"},
+	{"##sequence-region chr1 1 5x", "non-numeric region end"},
 	{"seq\tsrc\tfeat\t1\t5\tx\t+\t.", "non-numeric score"},
 	{"##gff-version 2", ""},
 	{"##gff-version", "incomplete metadata line"},
@@ -306,7 +379,7 @@ func mutations(seed string) [][]byte {
 }
 
 func run(c *enum.Ctx) {
-	c.Rule("per format (FASTA, FASTQ, BED3/4/5/6/12, GFF): (a) every sequence of <=3 (thorough 4) line tokens from an alphabet of 10-30 line shapes (valid lines and every invalid shape the statement lists), each with and without a final newline and with CRLF; (b) every byte string of length <=4 (thorough 5) over 15 structural bytes; (c) every single mutation (thorough: every pair) of a valid seed file: delete/duplicate a line, delete/duplicate/replace a column by {'',0,-1,2^63,x,1e3,' '}, truncate at every byte offset; oracle: no panic, every call returns a record or an error, io.EOF or an error within lines+1 calls, and inputs with an invalid line of a listed kind end in a non-EOF error; distinct = distinct inputs; non-trivial = inputs with at least one complete line")
+	c.Rule("per format (FASTA, FASTQ, BED3/4/5/6/12, GFF): (a) every sequence of <=3 (thorough 4) line tokens from an alphabet of 10-30 line shapes (valid lines and every invalid shape the statement lists), each with and without a final newline and with CRLF; (b) every byte string of length <=4 (thorough 5) over 15 structural bytes; (c) every single mutation (thorough: every pair) of a valid seed file: delete/duplicate a line, delete/duplicate/replace a column by {'',0,-1,2^63,x,1e3,' '}, truncate at every byte offset; oracle: no panic, every call returns a record or an error, io.EOF or an error within lines+1 calls, and inputs with an invalid line of a listed kind end in a non-EOF error; (d) FASTQ files of <=3 (4) four-line groups over 7 letters/qualities shapes x 2 '+'-line styles, read on past errors: every record that comes back is its own group and no group with differing lengths ever comes back; distinct = distinct inputs; non-trivial = inputs with at least one complete line")
 	c.Assume("a hang is detected by a progress watchdog and confirmed by re-running the single input in a child process before it is reported")
 	depth, blen := 3, 4
 	if !c.Quick {
@@ -327,6 +400,7 @@ func run(c *enum.Ctx) {
 			jobs = append(jobs, job{f, p})
 		}
 	}
+	jobs = append(jobs, job{"fastq", 4})
 	enum.Parallel(len(jobs), func(ji int) {
 		j := jobs[ji]
 		nt := enum.NontrivialSet{}
@@ -368,6 +442,33 @@ func run(c *enum.Ctx) {
 					return
 				}
 				for x := range toks {
+					idx = append(idx, x)
+					rec()
+					idx = idx[:len(idx)-1]
+				}
+			}
+			rec()
+		case 4: // FASTQ files of <=depth four-line groups, read on past errors
+			type shape struct{ letters, quals string }
+			shapes := []shape{{"acgt", "IIII"}, {"acgt", "II"}, {"ac", "IIII"}, {"ac", "5I"}, {"", "IIII"}, {"", "II"}, {"", ""}}
+			idx := make([]int, 0, depth)
+			var rec func()
+			rec = func() {
+				if len(idx) > 0 {
+					var sb strings.Builder
+					for i, x := range idx {
+						sh, plus := shapes[x/2], "+"
+						if x%2 == 1 {
+							plus = fmt.Sprintf("+g%d", i)
+						}
+						fmt.Fprintf(&sb, "@g%d\n%s\n%s\n%s\n", i, sh.letters, plus, sh.quals)
+					}
+					eval(kase{Format: "fastq", Data: []byte(sb.String()), Groups: true})
+				}
+				if len(idx) == depth {
+					return
+				}
+				for x := 0; x < 2*len(shapes); x++ {
 					idx = append(idx, x)
 					rec()
 					idx = idx[:len(idx)-1]
